@@ -363,6 +363,15 @@ def check_case(case):
         os.chdir(d)
         try:
             try:
+                if L >= 2 and (L + W + len(repr(b))) % 2 == 0:
+                    # a sweep over probabilities on ONE hand-made board: the same list objects were handed to the
+                    # generator before, with another robot-break probability; what is examined is the later call
+                    v.cls("board_objects_used_in_an_earlier_call")
+                    other = 0.5 if b["rb"] != 0.5 else 0.25
+                    r.stochastic_game_from_roborta_board.create_sg_from_board(b["moves"], b["rewards"], b["loose"],
+                                                                              other, b["lb"], b["tb"])
+                    for name in os.listdir("inputs"):
+                        os.remove(os.path.join("inputs", name))
                 r.stochastic_game_from_roborta_board.create_sg_from_board(b["moves"], b["rewards"], b["loose"],
                                                                           b["rb"], b["lb"], b["tb"])
             except Exception as e:
